@@ -13,6 +13,13 @@ Definition all_flags : list flag :=
   [FClosed; FThrowErrors; FShowTracebacksReq; FShowTracebacksServing; FStartedResponse; FMethodHead; FProcessBody; FHandlerSet; FErrorResponseSet; FAppNone; FRecursive; FVisitedBefore; FStreaming; FStatusIsBytes; FHeaderKeyIsBytes; FHeaderValIsBytes; FResponseHasClose; FLoopMore; FHTTPError5xx; FOther].
 Definition all_points : list hookpoint := [OnStartResource; BeforeRequestBody; BeforeHandler; BeforeFinalize; OnEndResource; OnEndRequest; BeforeErrorResponse; AfterErrorResponse].
 
+Definition all_fnames : list fname :=
+  [F_request_run; F_respond; F_do_respond; F_handle_error; F_request_close; F_ir_request_close;
+   F_get_serving; F_release_serving; F_appresponse_init; F_appresponse_close; F_appresponse_close_init;
+   F_appresponse_run; F_redirector_call; F_trap_init; F_trap_next; F_trapped_init; F_trapped_next; F_trapped_close].
+Definition all_pats : list pat :=
+  [PThrows; PTrapThrows; PHTTPRedirectOrError; PHTTPRedirect; PInternalRedirect; PException; PBaseException; PStopIteration].
+
 Definition flag_eq_dec : forall a b : flag, {a = b} + {a <> b}.
 Proof. decide equality. Defined.
 Definition hookpoint_eq_dec : forall a b : hookpoint, {a = b} + {a <> b}.
@@ -42,7 +49,96 @@ Definition exn_code (e : exn) : Z :=
 Definition outcome_code (o : outcome) : Z :=
   match o with Normal => 0 | Returned => -1 | Raised e => exn_code e | OutOfFuel => -2 end.
 
-(** scenario = (showtb  act_rules  true_flags  hooks  visited_from  streaming_closes)
+(** ---- a skeleton program as data: the skeletons regenerated from /repo are handed to the model with every
+    case, so that the correspondence check runs the semantics on what the source says now ----
+      stmt: (0) Skip  (1 a) Act  (2 s1 s2) Seq  (3 body ((pat h) ...) orelse fin) Try  (4 c s1 s2) If  (5 f) Assign
+            (6) bare raise  (6 e) Raise  (7) Return  (8 b) Loop  (9 b) ForLoop  (10 g) Call  (11) CallParam
+      cond: (0) CTrue  (1 f) CFlag  (2 c) CNot  (3) COther *)
+Definition nthZ {A} (z : Z) (l : list A) (d : A) : A := nth (Z.to_nat z) l d.
+Definition action_of_code (z : Z) : action := nthZ z all_actions Other.
+Definition flag_of_code (z : Z) : flag := nthZ z all_flags FOther.
+Definition fname_of_code (z : Z) : fname := nthZ z all_fnames F_request_run.
+Definition pat_of_code (z : Z) : pat := nthZ z all_pats PBaseException.
+Definition fname_eq_dec : forall a b : fname, {a = b} + {a <> b}.
+Proof. decide equality. Defined.
+Definition fname_code (f : fname) : Z := index_of fname_eq_dec f all_fnames 0.
+
+Fixpoint dec_cond (x : sx) : cond :=
+  match x with
+  | L (I k :: args) =>
+    if k =? 0 then CTrue
+    else if k =? 1 then match args with [I f] => CFlag (flag_of_code f) | _ => COther end
+    else if k =? 2 then match args with [c] => CNot (dec_cond c) | _ => COther end
+    else COther
+  | _ => COther
+  end.
+
+Fixpoint dec_stmt (x : sx) : stmt :=
+  match x with
+  | L (I k :: args) =>
+    if k =? 1 then match args with [I a] => Act (action_of_code a) | _ => Skip end
+    else if k =? 2 then match args with [s1; s2] => Seq (dec_stmt s1) (dec_stmt s2) | _ => Skip end
+    else if k =? 3 then
+      match args with
+      | [b; L hs; o; f] =>
+        Try (dec_stmt b)
+            (map (fun h => match h with
+                           | L [I p; s] => (pat_of_code p, dec_stmt s)
+                           | _ => (PBaseException, Skip)
+                           end) hs)
+            (dec_stmt o) (dec_stmt f)
+      | _ => Skip
+      end
+    else if k =? 4 then match args with [c; s1; s2] => If (dec_cond c) (dec_stmt s1) (dec_stmt s2) | _ => Skip end
+    else if k =? 5 then match args with [I f] => Assign (flag_of_code f) | _ => Skip end
+    else if k =? 6 then match args with [I e] => Raise (exn_of_code e) | _ => Raise None end
+    else if k =? 7 then Return
+    else if k =? 8 then match args with [b] => Loop (dec_stmt b) | _ => Skip end
+    else if k =? 9 then match args with [b] => ForLoop (dec_stmt b) | _ => Skip end
+    else if k =? 10 then match args with [I g] => Call (fname_of_code g) | _ => Skip end
+    else if k =? 11 then CallParam
+    else Skip
+  | _ => Skip
+  end.
+
+Definition pat_eq_dec : forall a b : pat, {a = b} + {a <> b}.
+Proof. decide equality. Defined.
+Definition pat_code (p : pat) : Z := index_of pat_eq_dec p all_pats 0.
+
+Fixpoint enc_cond (c : cond) : sx :=
+  match c with
+  | CTrue => L [I 0]
+  | CFlag f => L [I 1; I (flag_code f)]
+  | CNot c' => L [I 2; enc_cond c']
+  | COther => L [I 3]
+  end.
+
+Fixpoint enc_stmt (s : stmt) : sx :=
+  match s with
+  | Skip => L [I 0]
+  | Act a => L [I 1; I (action_code a)]
+  | Seq s1 s2 => L [I 2; enc_stmt s1; enc_stmt s2]
+  | Try b hs o f =>
+    L [I 3; enc_stmt b; L (map (fun h => L [I (pat_code (fst h)); enc_stmt (snd h)]) hs); enc_stmt o; enc_stmt f]
+  | If c s1 s2 => L [I 4; enc_cond c; enc_stmt s1; enc_stmt s2]
+  | Assign f => L [I 5; I (flag_code f)]
+  | Raise None => L [I 6]
+  | Raise (Some e) => L [I 6; I (exn_code e)]
+  | Return => L [I 7]
+  | Loop b => L [I 8; enc_stmt b]
+  | ForLoop b => L [I 9; enc_stmt b]
+  | Call g => L [I 10; I (fname_code g)]
+  | CallParam => L [I 11]
+  end.
+
+(** program = ((fname_code stmt) ...); a function that is not listed keeps the hand-written skeleton *)
+Definition dec_prog (x : sx) (f : fname) : stmt :=
+  match find (fun e => sx_Z (nth_sx 0 e) =? fname_code f) (sx_list x) with
+  | Some e => dec_stmt (nth_sx 1 e)
+  | None => prog f
+  end.
+
+(** scenario = (showtb  act_rules  true_flags  hooks  visited_from  streaming_closes  program)
       streaming_closes: the AppResponse.close() calls (1-based) that found response.stream set
       visited_from: `new_uri in redirections` holds from the visited_from-th internal redirect on
       act_rules : ((action_code occurrence exn_code) ...)       an action without a rule succeeds
@@ -97,7 +193,7 @@ Definition enc_journal (hs : list (Z * list hook)) (j : list (Z * action)) : sx 
 Definition run_session (x : sx) : sx :=
   let E := scenario_env x in
   let hs := map (fun e => (sx_Z (nth_sx 0 e), map dec_hook (sx_list (nth_sx 1 e)))) (sx_list (nth_sx 3 x)) in
-  let '(o, st) := run_flow E 600 server_session init_state in
+  let '(o, st) := exec (dec_prog (nth_sx 6 x)) pparam E 600 Skip server_session init_state in
   L [ I (outcome_code o);
       enc_journal hs (journal st);
       I (out_status (sfin st)); of_bool (out_taint (sfin st));
